@@ -144,10 +144,26 @@ func runC19(r *Rng, n int, tier string) {
 		alone := make([]GenResult, np)
 		var tags []string
 		skip := false
+		// a config-wide rename / override table (part of every package's configuration, alone or together)
+		global := ""
+		if r.Chance(50) {
+			global = r.Pick([]string{
+				`"overrides":{"go":{"rename":{"st":"State"}}}`,
+				`"overrides":{"go":{"rename":{"id":"Identifier","c3":"Third"}}}`,
+				`"overrides":{"go":{"rename":{"st":"State"},"overrides":[{"db_type":"pg_catalog.int8","engine":"postgresql","go_type":"github.com/example/custom.Big","nullable":true}]}}`,
+			})
+			tags = append(tags, "global-settings")
+		}
+		conf := func(entries []string) string {
+			if global == "" {
+				return confV2(entries)
+			}
+			return `{"version":"2","sql":[` + strings.Join(entries, ",") + `],` + global + `}`
+		}
 		for k, p := range pkgs {
 			files := map[string]string{}
 			e := p.entry(files)
-			files["sqlc.json"] = confV2([]string{e})
+			files["sqlc.json"] = conf([]string{e})
 			alone[k] = generate(files)
 			if !alone[k].OK() {
 				skip = true
@@ -173,7 +189,7 @@ func runC19(r *Rng, n int, tier string) {
 			for _, k := range perm {
 				entries = append(entries, pkgs[k].entry(files))
 			}
-			files["sqlc.json"] = confV2(entries)
+			files["sqlc.json"] = conf(entries)
 			res := generate(files)
 			if !res.OK() {
 				oracle = fmt.Sprintf("order %v: every package generates alone but the multi-package run fails: %s", perm, firstLine(res.Stderr))
